@@ -1363,10 +1363,18 @@ func tail(s string, n int) string {
 // -suite c14: the hard deadline as the driver enforces it (property C14 at the timer, not at the
 // helper functions).
 //
-// Every case is one timed `go` (mover's clock +- increments, or movetime; plain, `go ponder` with
-// the Ponder option off, or `go ponder` + `ponderhit` with the option on) against a blocking mock
-// search that returns only when its stop channel closes and records that moment.  Nothing else is
-// written by the GUI: the stop channel has to be closed by the driver's own deadline.
+// A session is one driver with one to three searches.  Between the searches the session state that
+// could influence the arming of the deadline changes: the Ponder option (on, off, toggled back and
+// forth), the debug flag, and the way the previous search went (ended by the deadline, pondered and
+// stopped, pondered + ponderhit, untimed and stopped).  Every search is one `go` against a blocking
+// mock search that returns only when its stop channel closes and records that moment:
+//   plain              timed go without the `ponder` token, Ponder option ON or OFF
+//   ponder_option_off  timed `go ponder`, option off (a normal search)
+//   ponder_hit         timed `go ponder`, option on, then `ponderhit`
+//   ponder_stopped     timed `go ponder`, option on, then `stop` (no deadline may fire)   } history
+//   untimed_stopped    go without a clock for the mover, then `stop` (no deadline)        } only
+// For the first three nothing else is written by the GUI: the stop channel has to be closed by the
+// driver's own deadline.
 //   - the clock state is put through uci.VerifTimeControl (the driver's own helpers) and the values
 //     are checked against the property: hard > 0; without movetime hard <= remaining and, when more
 //     than the margin remains, hard <= remaining - margin; with movetime soft = hard = movetime; the
@@ -1377,8 +1385,13 @@ func tail(s string, n int) string {
 
 type c14Case struct {
 	id                 int
-	class              string // clock class
-	variant            string // plain | ponder_option_off | ponder_hit
+	class              string   // clock class
+	variant            string   // plain | ponder_option_off | ponder_hit | ponder_stopped | untimed_stopped
+	optOn              bool     // the Ponder option while this search runs
+	pre                []string // lines written before this search: setoption name Ponder …, debug …
+	prev               string   // variant of the previous search of the session (none)
+	sess, idx          int      // session, position in it
+	hist               []string // ops of the earlier searches of the session
 	pos                posT
 	wt, bt, wi, bi, mt int64
 	goLine             string
@@ -1388,17 +1401,22 @@ type c14Case struct {
 	soft, hard         int64 // helper values for the mover
 }
 
-func (c *c14Case) ops() []string {
+func (c *c14Case) ownOps() []string {
 	var ops []string
-	if c.variant == "ponder_hit" {
-		ops = append(ops, fmt.Sprintf("send:%q", c.lexSet.apply("setoption name Ponder value true")))
+	for _, l := range c.pre {
+		ops = append(ops, fmt.Sprintf("send:%q", c.lexSet.apply(l)))
 	}
 	ops = append(ops, fmt.Sprintf("send:%q", c.lexPos.apply(c.pos.text)), fmt.Sprintf("send:%q", c.lexGo.apply(c.goLine)))
-	if c.variant == "ponder_hit" {
+	switch c.variant {
+	case "ponder_hit":
 		ops = append(ops, fmt.Sprintf("sleep_ms:%d", c.ponderMs), fmt.Sprintf("send:%q", c.lexHit.apply("ponderhit")))
+	case "ponder_stopped", "untimed_stopped":
+		return append(ops, fmt.Sprintf("sleep_ms:%d", c.ponderMs), fmt.Sprintf("send:%q", c.lexHit.apply("stop")), "waitBest")
 	}
-	return append(ops, fmt.Sprintf("expect: stop channel closes %d ms later by the driver's deadline (soft %d)", c.hard, c.soft))
+	return append(ops, fmt.Sprintf("expect: stop channel closes %d ms later by the driver's deadline (soft %d); waitBest", c.hard, c.soft))
 }
+
+func (c *c14Case) ops() []string { return append(append([]string{}, c.hist...), c.ownOps()...) }
 
 func stmOf(black bool) Color {
 	if black {
@@ -1450,13 +1468,31 @@ func c14Props(rng *rand.Rand, black bool, wt, bt, wi, bi, mt int64) string {
 }
 
 // genC14 draws one case; maxHard bounds the deadline (ms) the run has to wait for.
-func genC14(rng *rand.Rand, id int, maxHard int64) c14Case {
+func genC14(rng *rand.Rand, id int, maxHard int64, variant string) c14Case {
 	for {
-		c := c14Case{id: id}
+		c := c14Case{id: id, variant: variant}
 		for black := rng.IntN(2) == 0; ; { // both colours equally often
 			if c.pos = positions[rng.IntN(len(positions))]; c.pos.black == black {
 				break
 			}
+		}
+		if variant == "untimed_stopped" {
+			// no clock for the mover: the opponent's clock alone, depth / nodes limits, infinite, nothing
+			c.class = "untimed"
+			opp := pick[int64](rng, 0, 0, 5000, 60000)
+			if c.pos.black {
+				c.wt = opp
+			} else {
+				c.bt = opp
+			}
+			c.goLine = "go"
+			if opp != 0 || rng.IntN(3) == 0 {
+				c.goLine += fmt.Sprintf(" wtime %d btime %d", c.wt, c.bt)
+			}
+			c.goLine += pick(rng, "", " infinite", " depth 9", " nodes 100000", " winc 100 binc 100")
+			c.ponderMs = pick(rng, 0, 1, 5, 40)
+			c.lexSet, c.lexPos, c.lexGo, c.lexHit = genLex(rng), genLex(rng), genLex(rng), genLex(rng)
+			return c
 		}
 		margin := int64(uci.TimeSafetyMargin)
 		var own, inc int64
@@ -1500,13 +1536,7 @@ func genC14(rng *rand.Rand, id int, maxHard int64) c14Case {
 			}
 			// a state on which the helpers break the property is kept (reported by the caller)
 		}
-		switch r := rng.IntN(10); {
-		case r < 4:
-			c.variant = "plain"
-		case r < 5:
-			c.variant = "ponder_option_off"
-		default:
-			c.variant = "ponder_hit"
+		if c.variant == "ponder_hit" || c.variant == "ponder_stopped" {
 			c.ponderMs = pick(rng, 0, 1, 5, int(min(c.hard, maxHard))+15)
 		}
 		// the go line: argument groups in random order, absent clocks sometimes written as 0
@@ -1532,6 +1562,63 @@ func genC14(rng *rand.Rand, id int, maxHard int64) c14Case {
 		c.lexSet, c.lexPos, c.lexGo, c.lexHit = genLex(rng), genLex(rng), genLex(rng), genLex(rng)
 		return c
 	}
+}
+
+// genC14Session draws the searches of one driver session and the state changes between them.
+func genC14Session(rng *rand.Rand, sess, firstID int, maxHard int64) []c14Case {
+	n := pick(rng, 1, 1, 2, 2, 3)
+	cur, prev := false, "none" // the Ponder option is off by default
+	var cases []c14Case
+	var hist []string
+	for k := 0; k < n; k++ {
+		last := k == n-1
+		var variant string
+		switch r := rng.IntN(20); {
+		case r < 9:
+			variant = "plain"
+		case r < 11:
+			variant = "ponder_option_off"
+		case r < 17 || last:
+			variant = "ponder_hit"
+		case r < 19:
+			variant = "ponder_stopped"
+		default:
+			variant = "untimed_stopped"
+		}
+		want := rng.IntN(2) == 0
+		switch variant {
+		case "ponder_option_off":
+			want = false
+		case "ponder_hit", "ponder_stopped":
+			want = true
+		}
+		c := genC14(rng, firstID+k, maxHard, variant)
+		c.sess, c.idx, c.prev, c.optOn = sess, k, prev, want
+		// the way to the wanted option state: nothing, a single setoption, or toggling back and forth
+		var seq []bool
+		switch r := rng.IntN(10); {
+		case cur == want && r < 5:
+		case cur == want && r < 7:
+			seq = []bool{want}
+		case cur == want:
+			seq = []bool{!want, want}
+		case r < 7:
+			seq = []bool{want}
+		default:
+			seq = []bool{want, !want, want}
+		}
+		for _, v := range seq {
+			c.pre = append(c.pre, "setoption name Ponder value "+map[bool]string{true: "true", false: "false"}[v])
+		}
+		if rng.IntN(10) < 3 {
+			c.pre = append(c.pre, "debug "+pick(rng, "on", "off"))
+		}
+		c.hist = append([]string{}, hist...)
+		hist = append(hist, c.ownOps()...)
+		cases = append(cases, c)
+		cur, prev = want, variant
+	}
+	return cases
 }
 
 type c14Enter struct {
@@ -1587,114 +1674,142 @@ const (
 	c14Late  = 3 * time.Second      // ... and this much after it (loaded machine)
 )
 
-// runC14 executes one case; "" = all assertions hold.  lateMs: how long after the deadline the
-// channel closed (diagnostics only).
-func runC14(c *c14Case) (fail string, lateMs int64) {
-	mock := &c14Mock{entered: make(chan c14Enter, 1), closed: make(chan time.Time, 1)}
-	sink := &c14Sink{best: make(chan struct{}, 1)}
-	pr, pw := io.Pipe()
-	d := uci.NewDriver(uci.WithInput(pr), uci.WithOutput(sink), uci.WithError(io.Discard), uci.WithSearch(mock))
-	runDone := make(chan struct{})
+// c14Sess is one driver with its blocking mock search.
+type c14Sess struct {
+	mock    *c14Mock
+	sink    *c14Sink
+	pr      *io.PipeReader
+	pw      *io.PipeWriter
+	runDone chan struct{}
+}
+
+func newC14Sess() *c14Sess {
+	s := &c14Sess{mock: &c14Mock{entered: make(chan c14Enter, 1), closed: make(chan time.Time, 1)},
+		sink: &c14Sink{best: make(chan struct{}, 1)}, runDone: make(chan struct{})}
+	s.pr, s.pw = io.Pipe()
+	d := uci.NewDriver(uci.WithInput(s.pr), uci.WithOutput(s.sink), uci.WithError(io.Discard), uci.WithSearch(s.mock))
 	go func() {
-		defer close(runDone)
+		defer close(s.runDone)
 		d.Run()
 	}()
-	// a write returns when the driver's reader has taken the line (bounded, so that a wedged driver
-	// cannot hang the harness)
-	write := func(l string) {
-		done := make(chan struct{})
-		go func() {
-			pw.Write([]byte(l + "\n"))
-			close(done)
-		}()
-		select {
-		case <-done:
-		case <-time.After(c14Late):
-		}
-	}
-	defer func() {
-		// leave nothing behind: stop a search that is still running, quit, wait for Run
-		select {
-		case <-runDone:
-		default:
-			write("stop")
-			write("quit")
-			select {
-			case <-runDone:
-			case <-time.After(c14Late):
-				if fail == "" {
-					fail = "Run did not return after quit"
-				}
-			}
-		}
-		pw.Close()
-		pr.Close()
+	return s
+}
+
+// write returns when the driver's reader has taken the line (bounded, so that a wedged driver cannot
+// hang the harness).
+func (s *c14Sess) write(l string) {
+	done := make(chan struct{})
+	go func() {
+		s.pw.Write([]byte(l + "\n"))
+		close(done)
 	}()
-	if c.variant == "ponder_hit" {
-		write(c.lexSet.apply("setoption name Ponder value true"))
+	select {
+	case <-done:
+	case <-time.After(c14Late):
 	}
-	write(c.lexPos.apply(c.pos.text))
+}
+
+// end leaves nothing behind: stops a search that is still running, quits, waits for Run.
+func (s *c14Sess) end(clean bool) (fail string) {
+	if !clean {
+		s.write("stop")
+	}
+	s.write("quit")
+	select {
+	case <-s.runDone:
+	case <-time.After(c14Late):
+		fail = "Run did not return within 3 s of quit"
+	}
+	s.pw.Close()
+	s.pr.Close()
+	return fail
+}
+
+// run executes one search of the session; "" = all assertions hold.  lateMs: how long after the
+// deadline the channel closed (diagnostics only).
+func (s *c14Sess) run(c *c14Case) (fail string, lateMs int64) {
+	for _, l := range c.pre {
+		s.write(c.lexSet.apply(l))
+	}
+	s.write(c.lexPos.apply(c.pos.text))
 	t0 := time.Now()
-	write(c.lexGo.apply(c.goLine))
+	s.write(c.lexGo.apply(c.goLine))
 	var en c14Enter
 	select {
-	case en = <-mock.entered:
+	case en = <-s.mock.entered:
 	case <-time.After(c14Late):
 		return "search not started within 3 s of the go", 0
 	}
 	if en.soft != c.soft {
 		return fmt.Sprintf("soft target handed to the search is %d, the helper's value is %d", en.soft, c.soft), 0
 	}
-	if en.hasHit != (c.variant == "ponder_hit") {
+	pondering := c.variant == "ponder_hit" || c.variant == "ponder_stopped"
+	if en.hasHit != pondering {
 		return fmt.Sprintf("ponderhit channel handed to the search: %v (variant %s)", en.hasHit, c.variant), 0
 	}
 	hard := time.Duration(c.hard) * time.Millisecond
-	if c.variant == "ponder_hit" {
+	switch c.variant {
+	case "ponder_hit", "ponder_stopped", "untimed_stopped":
 		select {
-		case <-mock.closed:
+		case <-s.mock.closed:
+			if c.variant == "untimed_stopped" {
+				return c14BC + "stop channel closed although the mover has no clock and nothing was written by the GUI", 0
+			}
 			return c14BC + "stop channel closed while pondering (before the ponderhit, nothing written by the GUI): the deadline is armed at the ponderhit", 0
 		case <-time.After(time.Duration(c.ponderMs) * time.Millisecond):
 		}
 		t0 = time.Now()
-		write(c.lexHit.apply("ponderhit"))
+		if c.variant == "ponder_hit" {
+			s.write(c.lexHit.apply("ponderhit"))
+			break
+		}
+		s.write(c.lexHit.apply("stop"))
+		select {
+		case <-s.mock.closed:
+		case <-time.After(c14Late):
+			return "stop channel still open 3 s after the stop command", 0
+		}
 	}
-	var tc time.Time
+	if c.variant == "plain" || c.variant == "ponder_option_off" || c.variant == "ponder_hit" {
+		var tc time.Time
+		select {
+		case tc = <-s.mock.closed:
+		case <-time.After(time.Until(t0.Add(hard + c14Late))):
+			return fmt.Sprintf("hard deadline not enforced: stop channel still open %d ms + 3 s after the %s (Ponder option %s, previous search: %s)",
+				c.hard, map[bool]string{true: "ponderhit", false: "go"}[c.variant == "ponder_hit"], map[bool]string{true: "on", false: "off"}[c.optOn], c.prev), 0
+		}
+		el := tc.Sub(t0)
+		if el < hard-c14Early {
+			return fmt.Sprintf("stop channel closed after %d us, earlier than the hard deadline %d ms", el.Microseconds(), c.hard), 0
+		}
+		lateMs = (el - hard).Milliseconds()
+	}
 	select {
-	case tc = <-mock.closed:
-	case <-time.After(time.Until(t0.Add(hard + c14Late))):
-		return fmt.Sprintf("hard deadline not enforced: stop channel still open %d ms + 3 s after the %s",
-			c.hard, map[bool]string{true: "ponderhit", false: "go"}[c.variant == "ponder_hit"]), 0
-	}
-	el := tc.Sub(t0)
-	if el < hard-c14Early {
-		return fmt.Sprintf("stop channel closed after %d us, earlier than the hard deadline %d ms", el.Microseconds(), c.hard), 0
-	}
-	lateMs = (el - hard).Milliseconds()
-	select {
-	case <-sink.best:
+	case <-s.sink.best:
 	case <-time.After(c14Late):
 		return "no bestmove within 3 s of the stop channel closing", lateMs
-	}
-	write(c.lexGo.apply("quit"))
-	select {
-	case <-runDone:
-	case <-time.After(c14Late):
-		return "Run did not return within 3 s of quit", lateMs
 	}
 	return "", lateMs
 }
 
 func suiteC14(ctx *common.Ctx, workers int) {
 	res := common.NewResult(ctx, "uci/c14", "C14")
-	res.Rule = "a timed go (distinct clock state x plain / ponder+ponderhit) whose blocking search was stopped by the driver's own deadline, with nothing written by the GUI after the go / ponderhit"
+	res.Rule = "a timed go (distinct clock state x plain / ponder+ponderhit x Ponder option x previous search of the session) whose blocking search was stopped by the driver's own deadline, with nothing written by the GUI after the go / ponderhit"
 	n := ctx.Pick(600, 6000)
 	maxHard := int64(ctx.Pick(200, 400))
-	cases := make([]c14Case, n)
+	var cases []c14Case
+	var sessions [][2]int // [first case, one past the last case)
+	for len(cases) < n {
+		ss := genC14Session(ctx.Rng, len(sessions), len(cases), maxHard)
+		sessions = append(sessions, [2]int{len(cases), len(cases) + len(ss)})
+		cases = append(cases, ss...)
+	}
+	n = len(cases)
 	static := make([]string, n)
 	for i := range cases {
-		cases[i] = genC14(ctx.Rng, i, maxHard)
-		c := &cases[i]
-		static[i] = c14Props(ctx.Rng, c.pos.black, c.wt, c.bt, c.wi, c.bi, c.mt)
+		if c := &cases[i]; c.variant != "untimed_stopped" {
+			static[i] = c14Props(ctx.Rng, c.pos.black, c.wt, c.bt, c.wi, c.bi, c.mt)
+		}
 	}
 	fails := make([]string, n)
 	late := make([]int64, n)
@@ -1706,16 +1821,24 @@ func suiteC14(ctx *common.Ctx, workers int) {
 		go func() {
 			defer wg.Done()
 			for {
-				i := int(next.Add(1)) - 1
-				if i >= n || nfail.Load() >= failCap {
+				si := int(next.Add(1)) - 1
+				if si >= len(sessions) || nfail.Load() >= failCap {
 					return
 				}
-				if static[i] != "" && (cases[i].hard <= 0 || cases[i].hard > 4*maxHard) {
-					continue // nothing sensible to wait for
+				sess := newC14Sess()
+				clean, lastRun := true, -1
+				for i := sessions[si][0]; i < sessions[si][1] && clean; i++ {
+					if static[i] != "" && (cases[i].hard <= 0 || cases[i].hard > 4*maxHard) {
+						break // nothing sensible to wait for
+					}
+					fails[i], late[i] = sess.run(&cases[i])
+					ran[i], lastRun = true, i
+					clean = fails[i] == ""
 				}
-				fails[i], late[i] = runC14(&cases[i])
-				ran[i] = true
-				if fails[i] != "" {
+				if f := sess.end(clean); f != "" && clean && lastRun >= 0 {
+					fails[lastRun] = f
+				}
+				if lastRun >= 0 && fails[lastRun] != "" {
 					nfail.Add(1)
 				}
 			}
@@ -1730,8 +1853,13 @@ func suiteC14(ctx *common.Ctx, workers int) {
 			side = "black"
 		}
 		res.Evaluations++
-		res.Count("c14["+c.class+"|"+c.variant+"]", 1)
+		opt := "|Ponder_option_" + map[bool]string{true: "on", false: "off"}[c.optOn]
+		res.Count("c14["+c.class+"|"+c.variant+opt+"]", 1)
 		res.Count("c14_side["+side+"|"+c.variant+"]", 1)
+		res.Count("c14_session[previous="+c.prev+"|"+c.variant+opt+"]", 1)
+		if len(c.pre) > 1 {
+			res.Count("c14_state_changes_before_search[>=2 lines|"+c.variant+opt+"]", 1)
+		}
 		if static[i] != "" {
 			res.Count("helper_property_violated", 1)
 			res.Fail(common.Mismatch{Property: "C14", Kind: "failing-input", Ops: c.ops(),
@@ -1754,11 +1882,14 @@ func suiteC14(ctx *common.Ctx, workers int) {
 		}
 		worst = max(worst, late[i])
 		res.TracesValidated++
-		res.Nontrivial(fmt.Sprintf("%s|%v|%d %d %d %d %d", c.variant, c.pos.black, c.wt, c.bt, c.wi, c.bi, c.mt))
+		if c.variant == "ponder_stopped" || c.variant == "untimed_stopped" {
+			continue
+		}
+		res.Nontrivial(fmt.Sprintf("%s|%v|%v|%s|%d %d %d %d %d", c.variant, c.optOn, c.pos.black, c.prev, c.wt, c.bt, c.wi, c.bi, c.mt))
 		res.Sample(map[string]any{"ops": c.ops()}, 6)
 	}
 	fmt.Fprintf(os.Stderr, "uci/c14: largest lateness of a deadline %d ms\n", worst)
-	res.Notes = append(res.Notes, fmt.Sprintf("%d cases, hard deadlines up to %d ms, %d concurrent drivers; early margin 2 ms, late margin 3 s", n, maxHard, workers))
+	res.Notes = append(res.Notes, fmt.Sprintf("%d searches in %d driver sessions, hard deadlines up to %d ms, %d concurrent drivers; early margin 2 ms, late margin 3 s", n, len(sessions), maxHard, workers))
 	res.Write(ctx)
 }
 
@@ -1845,7 +1976,51 @@ func genGoargs(rng *rand.Rand) goargsCase {
 	if rng.IntN(2) == 0 {
 		c.lex = lexT{}
 	}
-	if rng.IntN(2) == 0 {
+	if rng.IntN(4) == 0 {
+		// what a GUI writes: each keyword at most once, plain decimal values of any magnitude up to int64
+		c.kind = "gui"
+		var groups [][]string
+		clock := func() string {
+			switch r := rng.IntN(12); {
+			case r < 1:
+				return "0"
+			case r < 4:
+				return strconv.Itoa(1 + rng.IntN(1000))
+			case r < 6:
+				return strconv.Itoa(1000 + rng.IntN(10000000))
+			case r < 8: // around 2^31 and 2^32 ms (24.9 / 49.7 days)
+				return strconv.FormatInt(pick[int64](rng, 1<<31, 1<<31, 1<<32)+int64(rng.IntN(5))-2, 10)
+			case r < 10: // up to the property's 10^12 ms
+				return strconv.FormatInt(2147483648+rng.Int64N(1000000000000-2147483648), 10)
+			case r < 11:
+				return strconv.FormatInt(1+rng.Int64N(1<<62), 10)
+			default:
+				return pick(rng, "9223372036854775807", "9223372036854775806", "4611686018427387904", "1000000000000")
+			}
+		}
+		if rng.IntN(4) > 0 {
+			groups = append(groups, []string{"wtime", clock()}, []string{"btime", clock()})
+			if rng.IntN(2) == 0 {
+				groups = append(groups, []string{"winc", pick(rng, "0", "100", "2000", "1000000000")}, []string{"binc", pick(rng, "0", "100", "2000", "1000000000")})
+			}
+		}
+		if rng.IntN(3) == 0 || len(groups) == 0 {
+			groups = append(groups, []string{"movetime", clock()})
+		}
+		if rng.IntN(6) == 0 {
+			groups = append(groups, []string{"depth", strconv.Itoa(1 + rng.IntN(80))})
+		}
+		if rng.IntN(6) == 0 {
+			groups = append(groups, []string{"nodes", strconv.Itoa(rng.IntN(1000000))})
+		}
+		if rng.IntN(3) == 0 {
+			groups = append(groups, []string{"ponder"})
+		}
+		rng.Shuffle(len(groups), func(i, j int) { groups[i], groups[j] = groups[j], groups[i] })
+		for _, g := range groups {
+			c.args = append(c.args, g...)
+		}
+	} else if rng.IntN(2) == 0 {
 		// keyword/value pairs in any order and multiplicity, sometimes cut short or with stray words
 		c.kind = "pairs"
 		for k := rng.IntN(6); k > 0; k-- {
@@ -1880,6 +2055,76 @@ func genGoargs(rng *rand.Rand) goargsCase {
 	}
 	return c
 }
+
+// guiClock reads a well-formed argument list the way the GUI meant it: `ponder` / `infinite` flags
+// and keyword-value pairs, every keyword at most once, every value a plain decimal number (no sign,
+// no leading zero) that fits int64.  ok = false for every other list (no C14 assertion is made then).
+func guiClock(args []string) (v map[string]int64, ok bool) {
+	v = map[string]int64{}
+	for i := 0; i < len(args); i++ {
+		a := args[i]
+		if a == "ponder" || a == "infinite" {
+			continue
+		}
+		isKw := false
+		for _, k := range goKeywords {
+			isKw = isKw || k == a
+		}
+		if _, dup := v[a]; !isKw || dup || i+1 >= len(args) || !reGuiNum.MatchString(args[i+1]) {
+			return nil, false
+		}
+		n, err := strconv.ParseInt(args[i+1], 10, 64)
+		if err != nil {
+			return nil, false
+		}
+		v[a] = n
+		i++
+	}
+	return v, true
+}
+
+var reGuiNum = regexp.MustCompile(`^(0|[1-9][0-9]*)$`)
+
+// c14Direct asserts what the text of property C14 fixes about the options of a search started by a
+// well-formed go: a movetime M > 0 is the soft target; a positive remaining time of the mover or a
+// positive movetime puts the search in timed mode (a soft target is passed).  "" = holds / not applicable.
+func c14Direct(c *goargsCase, impl string) (class, fail string) {
+	v, ok := guiClock(c.args)
+	if !ok || !strings.HasPrefix(impl, "call ") {
+		return "", ""
+	}
+	own := v["wtime"]
+	if c.black {
+		own = v["btime"]
+	}
+	mt := v["movetime"]
+	if own <= 0 && mt <= 0 {
+		return "untimed", ""
+	}
+	soft := ""
+	if m := reSoft.FindStringSubmatch(impl); m != nil {
+		soft = m[1]
+	}
+	big := func(x int64) string {
+		switch {
+		case x >= 1<<31:
+			return ">=2^31"
+		case x > 0:
+			return "<2^31"
+		}
+		return "absent"
+	}
+	class = "movetime" + big(mt) + "|own_clock" + big(own)
+	switch {
+	case soft == "-":
+		return class, fmt.Sprintf("no soft target is handed to the search (not in timed mode) although the mover has %d ms left and movetime is %d", own, mt)
+	case mt > 0 && soft != strconv.FormatInt(mt, 10):
+		return class, fmt.Sprintf("movetime %d but the soft target handed to the search is %s", mt, soft)
+	}
+	return class, ""
+}
+
+var reSoft = regexp.MustCompile(` soft=(-|-?\d+)`)
 
 type goargsRec struct {
 	depth, nodes, soft, softNodes string // "-" = option absent
@@ -2012,7 +2257,7 @@ func goargsSession(cases []goargsCase, impl, note []string) {
 }
 
 func suiteGoargs(ctx *common.Ctx, workers int) {
-	res := common.NewResult(ctx, "uci/goargs", "C06")
+	res := common.NewResult(ctx, "uci/goargs", "C06", "C14")
 	res.Rule = "a go argument list on which the model's outcome is not the plain default (a value is clamped, unparsable, out of range, overridden by a later occurrence, read from a keyword token, or missing)"
 	var cases []goargsCase
 	// boundary: every number after every keyword, for both colours
@@ -2053,6 +2298,23 @@ func suiteGoargs(ctx *common.Ctx, workers int) {
 		}
 		model = mdl.Batch(reqs)
 		mdl.Close()
+	}
+	// property C14, asserted directly on well-formed argument lists (first, so that these are kept
+	// when the list of mismatches is cut)
+	for i := range cases {
+		c := &cases[i]
+		class, fail := c14Direct(c, impl[i])
+		if class != "" {
+			res.Count("c14_direct["+class+"]", 1)
+		}
+		if fail != "" {
+			res.Count("c14_direct_failed", 1)
+			if res.Histogram["c14_direct_failed"] > 25 {
+				continue // leave room for the model comparison in the (cut) list of mismatches
+			}
+			res.Fail(common.Mismatch{Property: "C14", Kind: "failing-input", Ops: c.ops(), Impl: impl[i] + ": " + fail,
+				Model: "with a movetime the soft target equals it; a positive remaining time of the mover or a positive movetime means timed mode"})
+		}
 	}
 	reDepth := regexp.MustCompile(`depth=(-?\d+)`)
 	for i := range cases {
